@@ -36,6 +36,19 @@ func newDomainRoutingTracker() *domainRoutingTracker {
 	}
 }
 
+// reset forgets everything the tracker believes is installed in the kernel map.
+// It must be called whenever domain_routing_map is cleared behind the tracker's
+// back; otherwise replayed cache entries look unchanged and are not re-installed.
+func (t *domainRoutingTracker) reset() {
+	if t == nil {
+		return
+	}
+	t.mu.Lock()
+	t.owners = make(map[string]domainRoutingOwnerSnapshot)
+	t.ips = make(map[[4]uint32]*domainRoutingIPState)
+	t.mu.Unlock()
+}
+
 func cloneDomainRoutingIPSet(src map[[4]uint32]struct{}) map[[4]uint32]struct{} {
 	if len(src) == 0 {
 		return nil
